@@ -28,7 +28,8 @@ REQUIRED = ["assort_pairs_compared", "assort_pairs_nontrivial", "exhaustive_tabl
             "ballots_listing_unranked_candidates_with_rank_0", "assorter_means_compared_with_generator_tallies",
             "assorter_means_compared:some_cards_lack_the_contest",
             "reader_files_where_a_candidate_shares_its_name_with_the_contest_or_ballot", "reader_files_larger_than_4_MiB",
-            "reader_files_without_a_final_line_break"]
+            "reader_files_without_a_final_line_break",
+            "contests_with_eleven_candidates_and_two_digit_rank_numbers"]
 ASSUMPTIONS = ["rankings are duplicate-free (the property's quantifier)", "candidate ids are strings in both readers",
                "JSON mapping per the RAIRE documentation: WINNER_ONLY <-> NEB, IRV_ELIMINATION + already_eliminated <-> NEN"]
 EXHAUSTIVE = "c14.assort enumerates every partial ranking x ordered pair x eliminated set for each n listed in the counters"
@@ -56,6 +57,11 @@ def run_shard(spec, rec):
     rng = random.Random(f"c14-{spec['seed']}-{spec['shard']}")
     for _ in range(spec["files"]):
         run_case({"kind": "file", "fseed": rng.randrange(10 ** 9)}, rec)
+    for _ in range(20 if spec["tier"] == "quick" else 100):
+        case = rc.gen_eleven(rng)
+        case["kind"] = "reapply"
+        rec.count("contests_with_eleven_candidates_and_two_digit_rank_numbers")
+        run_case(case, rec)
     for _ in range(spec["raire"]):
         case = rc.gen_case(rng, n=rc.pick_n(rng, spec["tier"]))
         case["kind"] = "reapply"
